@@ -267,6 +267,19 @@ impl<T: Flt> Tracked<T> {
             }
             _ => {}
         }
+        // C06: an accepted processing call completes the pending ramp, whatever its mask: the
+        // ratio in use afterwards (hook snapshot) is the requested one, bit for bit
+        if check && self.props.c06 && op.is_processing() && matches!(obs.res, Res::Ok(_, _)) && cfg.kind.is_async() && !self.run.dead {
+            if let Some(v) = self.run.state().scalars.iter().find(|(k, _)| *k == "resample_ratio").map(|(_, v)| *v) {
+                if v != self.trk.r_cur.to_bits() {
+                    viols.push(Viol {
+                        prop: "C06",
+                        sig: "ratio-in-use-after-call-is-not-the-target".into(),
+                        detail: format!("after {} the resampler runs at {:?}, the ratio requested last is {:?}", op.text(), f64::from_bits(v), self.trk.r_cur),
+                    });
+                }
+            }
+        }
         (obs, viols)
     }
 
